@@ -176,8 +176,10 @@ impl Prop for C17 {
             ],
             any::<bool>(),
             prop_oneof![
-                12 => Just(vec![]),
-                1 => proptest::collection::vec(2u8..=16, 1..=3),
+                10 => Just(vec![]),
+                // tool runs: a few thread counts per case, high counts (many small chunks, remainders
+                // of the byte size that exceed a short last row) as likely as low ones
+                3 => proptest::collection::vec(prop_oneof![1 => 2u8..=16, 1 => 11u8..=16], 1..=3),
             ],
             prop::bool::weighted(0.3),
         )
